@@ -19,6 +19,7 @@ type emField struct {
 	Type     string `json:"type"`
 	JsonName string `json:"json,omitempty"`
 	Validate string `json:"validate,omitempty"`
+	RawTag   string `json:"rawTag,omitempty"` // when set: the whole struct tag verbatim (tags are free text to the compiler)
 	Embedded bool   `json:"embedded,omitempty"`
 }
 
@@ -106,6 +107,9 @@ func emGen(t *rapid.T) emModel {
 			if rapid.IntRange(0, 3).Draw(t, "hasJson") == 0 {
 				f.JsonName = rapid.SampledFrom([]string{"f", "-", "", "a,omitempty", "ü"}).Draw(t, "json")
 			}
+			if rapid.IntRange(0, 7).Draw(t, "rawTag") == 0 {
+				f.RawTag = strings.Join(rapid.SliceOfN(rapid.SampledFrom([]string{`json:"`, `validate:"`, `"`, `"`, " ", ":", "name", "required", ",", `\`, "-", "omitempty", "min=1", "oneof=a b", `json:"n"`, `validate:"required"`, "ü"}), 1, 6).Draw(t, "rawTagTokens"), "")
+			}
 			if rapid.IntRange(0, 7).Draw(t, "embedded") == 0 {
 				f.Embedded = true
 				f.Type = rapid.SampledFrom([]string{"S1", "S2", "S3", "error", "Unknown"}).Draw(t, "etype")
@@ -184,7 +188,11 @@ func (m emModel) metadata() ([]definitions.ControllerMetadata, *definitions.Mode
 			if f.Validate != "" {
 				tags = append(tags, fmt.Sprintf(`validate:"%s"`, f.Validate))
 			}
-			sm.Fields = append(sm.Fields, definitions.FieldMetadata{Name: f.Name, Type: f.Type, Tag: strings.Join(tags, " "), IsEmbedded: f.Embedded})
+			tag := strings.Join(tags, " ")
+			if f.RawTag != "" {
+				tag = f.RawTag
+			}
+			sm.Fields = append(sm.Fields, definitions.FieldMetadata{Name: f.Name, Type: f.Type, Tag: tag, IsEmbedded: f.Embedded})
 		}
 		models.Structs = append(models.Structs, sm)
 	}
